@@ -161,6 +161,8 @@ func Preset(prop string, adversarial bool, r *scen.Rand) *Params {
 		p.Envs = allEnvs
 		p.EditKinds = []string{"removecall", "removetest", "removesub", "skip", "addcall", "addtest", "retarget"}
 		p.FaultP = 0.1 // a directory that cannot be listed excuses that directory only
+		p.InvalidP = 0.06 // calls that fail before anything is written: a registered file that never comes into being
+		p.UpdateOpt = 0.2
 		p.PreCorruptP = 0.06
 		p.Counts = []int{1, 2, 3}
 		p.CleanP = 1
